@@ -159,7 +159,28 @@ def enlarge_entry(cat, entry, target=TARGET):
     return pool
 
 
-def numba_threads_differential(cat, entries, reps=8, counts=(2, 16)):
+def _enlarged_variants(cat, e):
+    """(entry, pool) pairs: the call on an enlarged raster.  For a_star_search the geometry of the
+    call grows with the raster (an interior pair and corner to corner), once on the tiled surface and
+    once on a barrier-free one (its result depends on barriers and geometry only)."""
+    pool = enlarge_entry(cat, e)
+    if e["op"] != "a_star_search":
+        return [(e, pool)]
+    out = []
+    rid = e["rasters"][0]
+    flat = copy.deepcopy(pool)
+    flat[rid]["data"] = np.ones(np.asarray(pool[rid]["data"]).shape, dtype=np.float64)
+    for pl in (flat, pool):
+        ys, xs = pl[rid]["coords"]["y"], pl[rid]["coords"]["x"]
+
+        def pt(f, g):
+            return (float(ys[int(f * (len(ys) - 1))]), float(xs[int(g * (len(xs) - 1))]))
+        for a, b in (((0.14, 0.15), (0.83, 0.44)), ((0.0, 0.0), (1.0, 1.0))):
+            out.append((dict(e, params=dict(e["params"], start=pt(*a), goal=pt(*b))), pl))
+    return out
+
+
+def numba_threads_differential(cat, entries, reps=4, counts=(2, 3, 4, 16), variants=True):
     """Run NumPy-backed entries on enlarged rasters with 1 Numba thread, then with more;
     any difference is a violation of the thread-count clause.  Runs in the calling process
     (meant for a child forked from the zygote)."""
@@ -170,40 +191,35 @@ def numba_threads_differential(cat, entries, reps=8, counts=(2, 16)):
     for e in entries:
         if e["backend"] != "numpy" or e.get("expect_error") or e["private"]:
             continue
-        pool = enlarge_entry(cat, e)
-        if e["op"] == "a_star_search":
-            # enlarge the geometry of the call with the raster: corner to corner
-            sp = pool[e["rasters"][0]]
-            e = dict(e, params=dict(e["params"], start=(float(sp["coords"]["y"][0]), float(sp["coords"]["x"][0])),
-                                    goal=(float(sp["coords"]["y"][-1]), float(sp["coords"]["x"][-1]))))
-
-        def once():
-            rasters = [histsim.PoolRaster(rid, pool[rid], "numpy") for rid in e["rasters"]]
-            return histsim.run_call(e, rasters)
-        try:
-            numba.set_num_threads(1)
-            base = once()
-        except Exception:
-            continue
-        if base.exc is not None:
-            continue
-        checked += 1
-        bad = None
-        for n in counts:
-            numba.set_num_threads(min(n, numba.config.NUMBA_NUM_THREADS))
-            for k in range(reps):
-                o = once()
-                if o.digest != base.digest:
-                    bad = {"class": "result_varies_with_numba_threads", "threads": n, "repetition": k,
-                           "entry": e["id"], "op": e["op"], "family": e["family"],
-                           "first_difference": histsim.result_diff(o.canon, base.canon),
-                           "replay_may_be_probabilistic": True}
+        for e_, pool in (_enlarged_variants(cat, e) if variants else [(e, cat["pool"])]):
+            def once():
+                rasters = [histsim.PoolRaster(rid, pool[rid], "numpy") for rid in e_["rasters"]]
+                return histsim.run_call(e_, rasters)
+            try:
+                numba.set_num_threads(1)
+                base = once()
+            except Exception:
+                continue
+            if base.exc is not None:
+                continue
+            checked += 1
+            bad = None
+            for n in counts:
+                numba.set_num_threads(min(n, numba.config.NUMBA_NUM_THREADS))
+                for k in range(reps):
+                    o = once()
+                    if o.digest != base.digest:
+                        bad = {"class": "result_varies_with_numba_threads", "threads": n, "repetition": k,
+                               "entry": e_["id"], "op": e_["op"], "family": e_["family"],
+                               "first_difference": histsim.result_diff(o.canon, base.canon),
+                               "replay_may_be_probabilistic": True, "_entry": e_}
+                        break
+                if bad:
                     break
+            numba.set_num_threads(1)
             if bad:
+                out.append((bad, pool))
                 break
-        numba.set_num_threads(1)
-        if bad:
-            out.append((bad, pool))
-            if len(out) >= 2:
-                break
+        if len(out) >= 2:
+            break
     return out, checked
